@@ -247,6 +247,11 @@ pub fn font_index(name: &str) -> usize {
 /// Builds a synthetic `MonoFont` (8 glyphs 'a'..='h', replacement index 1) with the given cell size,
 /// spacing and glyphs per row over a generated atlas, and passes it to `f`.
 pub fn with_custom_font<R>(cw: u32, ch: u32, spacing: u32, glyphs_per_row: u32, f: impl FnOnce(&MonoFont<'_>) -> R) -> R {
+    with_custom_font_mapping(cw, ch, spacing, glyphs_per_row, "\0ah", f)
+}
+
+/// the same synthetic font with a caller-chosen StrGlyphMapping string (replacement index 1)
+pub fn with_custom_font_mapping<R>(cw: u32, ch: u32, spacing: u32, glyphs_per_row: u32, mapping_str: &str, f: impl FnOnce(&MonoFont<'_>) -> R) -> R {
     use embedded_graphics::geometry::Size;
     use embedded_graphics::image::ImageRaw;
     use embedded_graphics::mono_font::mapping::StrGlyphMapping;
@@ -265,7 +270,7 @@ pub fn with_custom_font<R>(cw: u32, ch: u32, spacing: u32, glyphs_per_row: u32, 
         }
     }
     let image = ImageRaw::<BinaryColor>::new(&data, Size::new(iw, ih)).expect("atlas size");
-    let mapping = StrGlyphMapping::new("\0ah", 1);
+    let mapping = StrGlyphMapping::new(mapping_str, 1);
     let font = MonoFont {
         image,
         character_size: Size::new(cw, ch),
